@@ -2,7 +2,24 @@
 
 Reading (chosen so that the minimally repaired code is right; DESIGN.md "### C14"):
   * notes are dictionaries as every loader and `from_note_array` build them (key `midi_pitch`, `note_on`,
-    `note_off`, `velocity`, `track`, `channel`, `id`); controls carry `number`, `time`, `value`.
+    `note_off`, `velocity`, `track`, `channel`, `id`) or as `PerformedNote` documents them (key `pitch`; the
+    class docstring lists "id, pitch, note_on, note_off, velocity, track, channel, sound_off", only `pitch`
+    is accepted by `__setitem__` and tests/test_performance.py builds every note that way), given as plain
+    dictionaries or as `PerformedNote` objects; missing `velocity`/`track`/`channel`/`id` take the documented
+    defaults 60/0/1/None.  "The pitch" of a note is its `pitch` entry; a dictionary carrying both keys with
+    different values is contradictory and outside the reading (the model mirrors what the code does with it).
+    A note that carries `sound_off` < `note_off`, lacks `note_on`/`note_off`/both pitch keys, or carries
+    inconsistent ticks is rejected by the documented validators (tests/test_performance.py demands it): the
+    oracle makes no claim on such input, the model mirrors the rejection.  controls carry `number`, `time`, `value`.
+  * "setting it recomputes every note": every note that is in `pp.notes` at the moment of the assignment, with
+    the fields it has then (notes appended after construction, notes edited through `note[key] = v`); claims
+    are made in states where every note still has 0 <= onset <= release.
+  * `from_note_array` documents `pitch, onset_sec, duration_sec, velocity` as mandatory and ignores tick columns:
+    an array without them is rejected (no claim); an array restricted to any superset of them rebuilds the same
+    pitches, velocities, onsets and sounding ends; the rebuilt part has the default ppq/mpq (480/500000) and its
+    own note array agrees with *those*.
+  * `Performance.note_array()` holds, for every part, exactly the rows of that part's `note_array()` (ids
+    prefixed when there are several parts, tracks as renumbered); the order of the rows is not part of the property.
   * the pedal events are the controls with number 64 in time order, simultaneous ones in stream order
     (fixes/C14-2: the sort must be stable).  The pedal state "at the moment" of a release is the state
     established by the last pedal event strictly before it (value > threshold = down); an event exactly
@@ -24,32 +41,48 @@ from core import Eval
 
 PROPERTY = "C14"
 DRIVER = "drv_c14"
-PROPS = ["PartituraModel.Props.C14"]
+PROPS = ["PartituraModel.Props.C14", "PartituraModel.Props.C14Dict", "PartituraModel.Props.C14Arrays"]
 TRUSTED = [
-    "numpy primitives as modelled: argsort(kind='stable') = stable sort, searchsorted(left) on a sorted array = "
-    "number of elements < x, np.diff != 0 = adjacent states differ, np.min/np.max/np.minimum/np.unique/np.where",
+    "numpy primitives through their documented contracts: argsort(kind='stable') returns a stable sort "
+    "(Props.C14Arrays.stable_sort_unique: every list meeting the contract IS the model's sortBy), searchsorted(left) "
+    "returns an index i with a[:i] < x <= a[i:] (searchsorted_unique: that index IS the model's searchsortedLeft; "
+    "np_binsearch_correct: numpy's binary search meets the contract on sorted arrays); both are also sampled "
+    "against numpy (case kinds ss / asort).  Still modelled without proof: np.diff(..) != 0 = adjacent states "
+    "differ, np.where, fancy indexing, np.min/np.max/np.minimum, np.unique = the distinct pitches, np.hstack",
     "binary64/float32 arithmetic on the dyadic test grid is exact (times are multiples of 1/64 below 64); "
     "for other inputs note_array/from_note_array round to float32 - outside the compared domain",
     "binary64 evaluation of 1e6*ppq*t/mpq before np.round (model exact; same caveat as C12)",
-    "Python set iteration order in sanitize_track_numbers is arbitrary: the theorem is over every duplicate-free "
-    "enumeration; the comparison relabels the implementation's numbers by first occurrence",
-    "notes keyed `pitch` without `midi_pitch` are outside the reading (adjust_offsets_w_sustain reads `midi_pitch`)",
+    "the unstable default argsort by pitch inside note_array_from_part_list: the theorem (perf_rows_any_pitch_sort) "
+    "is over every arrangement sorted by pitch; the comparison orders rows of equal (onset, pitch) by part and position",
+    "Python dict semantics of PerformedNote (get with default, insertion order only decides which validator's message is seen)",
 ]
 PARTIAL = [
     "pedal down at the release with no later pedal-up event and no later re-strike: the property names no moment; "
-    "the theorem gives the code's sentinel max(last pedal time, last release)+1 (pedal_down_no_release)",
+    "the theorem gives the code's sentinel max(last pedal time, last release)+1 (pedal_down_never_released)",
+    "a note dictionary with both `pitch` and `midi_pitch` and different values: only `pitch` is validated, the readers use "
+    "`midi_pitch` (raw_build_refines has the hypothesis that the keys agree; the model mirrors the code either way)",
+    "note[key] = v does not re-establish sound_off >= note_off or note_on <= note_off (set_off_can_pass_sound_off): "
+    "the theorems about sounding ends hold after the next threshold assignment (step_thr), not between assignments",
+    "Performance([]).note_array() raises (np.hstack of nothing): mirrored, no claim",
 ]
 RULE = ("random performed parts: 0-9 notes over 1-3 pitches with times from a small per-case pool of multiples of 1/64 "
         "(forcing overlapping/repeated/zero-length notes and exact coincidences of pedal events with releases and onsets, "
         "unsorted order, several channels) x 0-12 controls (pedal 64 with values around the thresholds, other controller "
         "numbers interleaved, simultaneous events, before/after all notes) x threshold sequences (quick: ~8 sampled incl. "
-        "0,63,64,126,127; thorough: all 128 in random order) x ppq/mpq; plus multi-part track renumbering cases and "
-        "malformed notes. distinct = distinct (notes, controls, thresholds, ppq, mpq) text; non-trivial = at least one "
-        "note and one pedal event (part cases) or at least two (part, track) keys (track cases)")
-LEVEL_TEXT = ("Lean theorems over the executable model of adjust_offsets_w_sustain / note_array / from_note_array / "
-              "sanitize_track_numbers for all note lists, control streams and thresholds (induction, no bounds); the "
-              "model is tied to the code by exact differential comparison on generated inputs, and the property itself "
-              "is re-checked on the implementation's outputs by an independent reference pedal simulation.")
+        "0,63,64,126,127; thorough: all 128 in random order) x ppq/mpq x column subsets for from_note_array; "
+        "histories (kind hist): notes as documented dictionaries (pitch / midi_pitch / both / neither, missing optional "
+        "keys, stale or too small sound_off, ticks) given as dicts or PerformedNote objects, then 3-12 statements: "
+        "threshold assignments (repeated value, raised then lowered), note[key] = value over every accepted and two "
+        "unaccepted keys with valid and invalid values, appended notes; performances of 0-4 such parts (kind perf); "
+        "multi-part track renumbering cases; malformed notes; numpy contract samples (ss, asort). distinct = distinct "
+        "request text; non-trivial = at least one note and one pedal event (part/hist cases), at least two (part, track) "
+        "keys (track cases), at least two notes (perf), non-empty array (ss/asort)")
+LEVEL_TEXT = ("Lean theorems over the executable model of PerformedNote (constructor defaults, validators, __setitem__), "
+              "adjust_offsets_w_sustain, the threshold setter under arbitrary histories of assignments / edits / appended "
+              "notes, note_array / from_note_array (column subsets) / Performance.note_array / sanitize_track_numbers, for "
+              "all note lists, control streams, thresholds and histories (induction, no bounds); the model is tied to the "
+              "code by exact differential comparison on generated inputs, and the property itself is re-checked on the "
+              "implementation's outputs by an independent reference pedal simulation.")
 
 G = 64  # time grid: multiples of 1/G
 
@@ -106,7 +139,149 @@ def gen_part(rng, tier, big=False):
         rng.shuffle(thrs)
     ppq = rng.choice([480, 480, 960, 96, 1, 24, rng.randint(1, 2000)])
     mpq = rng.choice([500000, 500000, 857142, 250001, 1000000, rng.randint(100000, 3000000)])
-    return {"k": "part", "notes": notes, "controls": controls, "thrs": thrs, "ppq": ppq, "mpq": mpq}
+    # columns of the array handed to from_note_array: [onset_sec+duration_sec, velocity, id, track, channel]
+    r = rng.random()
+    ff = [True, True, True, True, True] if r < 0.3 else [rng.random() < 0.85, rng.random() < 0.9, rng.random() < 0.5,
+                                                          rng.random() < 0.5, rng.random() < 0.5]
+    return {"k": "part", "notes": notes, "controls": controls, "thrs": thrs, "ppq": ppq, "mpq": mpq,
+            "ff": ff, "sid": rng.random() < 0.15}
+
+
+# ---- histories over note dictionaries as PerformedNote documents them
+KEYS = ["id", "pitch", "midi_pitch", "note_on", "note_off", "sound_off", "velocity", "track", "channel",
+        "note_on_tick", "note_off_tick"]
+INT_KEYS = ("pitch", "midi_pitch", "velocity", "track", "channel", "note_on_tick", "note_off_tick")
+
+
+def gen_raw(rng, pool, pitches, i, style=None):
+    a, b = _time(rng, pool), _time(rng, pool)
+    if rng.random() < 0.15:
+        b = a
+    on, off = min(a, b), max(a, b)
+    p = rng.choice(pitches)
+    d = {"id": "n%d" % i}
+    st = style or rng.choice(["midi"] * 5 + ["pitch"] * 4 + ["both"])
+    r = rng.random()
+    if r < 0.02:
+        st = "none"
+    elif r < 0.04:
+        st = "differ"
+    if st in ("midi", "both", "differ"):
+        d["midi_pitch"] = p
+    if st in ("pitch", "both"):
+        d["pitch"] = p
+    if st == "differ":
+        d["pitch"] = rng.choice([p + 1, 300, -2, rng.choice(pitches)])
+    d["note_on"], d["note_off"] = on, off
+    if rng.random() < 0.7:
+        d["velocity"] = rng.randint(0, 127)
+    if rng.random() < 0.6:
+        d["track"] = rng.choice([0, 0, 1, 2])
+    if rng.random() < 0.6:
+        d["channel"] = rng.choice([0, 1, 1, 2, 9])
+    if rng.random() < 0.2:
+        d["sound_off"] = off + rng.choice([0.0, 0.5, 2.0, 2.0, -0.25])
+    if rng.random() < 0.15:
+        d["note_on_tick"] = rng.choice([0, 3, 100, 100, -1])
+        if rng.random() < 0.6:
+            d["note_off_tick"] = rng.choice([0, 50, 100, 200, -5])
+    elif rng.random() < 0.05:
+        d["note_off_tick"] = rng.choice([-3, 7])
+    r = rng.random()
+    if r < 0.03:
+        del d[rng.choice(["note_on", "note_off", "id"])]
+    elif r < 0.05:
+        d["velocity"] = rng.choice([128, -1])
+    elif r < 0.07:
+        d["note_on"] = d["note_off"] + 0.5
+    return d
+
+
+def gen_setop(rng, pool, pitches, nnotes):
+    i = rng.randrange(nnotes) if nnotes and rng.random() < 0.97 else nnotes + rng.randint(0, 2)
+    k = rng.choice(["pitch"] * 5 + ["note_on", "note_off", "note_off", "sound_off", "velocity", "track", "channel",
+                                    "note_on_tick", "note_off_tick", "midi_pitch", "foo", "id"])
+    if k in ("pitch", "midi_pitch"):
+        v = rng.choice(pitches + pitches + [rng.randint(0, 127), 128, -1])
+    elif k == "note_on":
+        v = rng.choice([0.0, min(pool), min(pool), _time(rng, pool), -0.5])
+    elif k == "note_off":
+        v = rng.choice([max(pool), max(pool) + 1.0, _time(rng, pool), _time(rng, pool), -1.0])
+    elif k == "sound_off":
+        v = rng.choice([max(pool) + 2.0, _time(rng, pool), 0.0, -1.0])
+    elif k == "velocity":
+        v = rng.choice([0, 127, 128, -1, rng.randint(0, 127)])
+    elif k in ("track", "channel"):
+        v = rng.choice([0, 1, 5, -1, 300])
+    elif k == "note_on_tick":
+        v = rng.choice([0, 10, 100, -1])
+    elif k == "note_off_tick":
+        v = rng.choice([0, 50, 100, 500, -1])
+    elif k == "id":
+        v = "x%d" % rng.randint(0, 3)
+    else:
+        v = rng.choice([0, 300])
+    return ["S", i, k, v]
+
+
+def gen_hist(rng, tier):
+    base = gen_part(rng, "quick")
+    pool = sorted(set([n["on"] for n in base["notes"]] + [n["off"] for n in base["notes"]] + [0.0, 1.0]))
+    pitches = sorted(set(n["p"] for n in base["notes"])) or [60]
+    if rng.random() < 0.5:
+        pitches = pitches[:2]
+    nn = rng.choice([0, 1, 2, 2, 3, 4, 5])
+    style = rng.choice([None, None, "pitch", "midi"])
+    notes = [gen_raw(rng, pool, pitches, i, style) for i in range(nn)]
+    controls = base["controls"]
+    cvals = sorted(set(c["v"] for c in controls if c["n"] == 64))
+    tb = [0, 63, 64, 126, 127] + [max(0, min(127, v + d)) for v in cvals for d in (-1, 0)]
+    ops = []
+    cnt = nn
+    last = None
+    for j in range(rng.randint(3, 12)):
+        r = rng.random()
+        if r < 0.4:
+            if last is not None and rng.random() < 0.25:
+                t = last  # the same value again
+            elif last is not None and rng.random() < 0.3:
+                t = rng.choice([min(127, last + rng.randint(1, 40)), max(0, last - rng.randint(1, 40))])
+            else:
+                t = rng.choice(tb)
+            ops.append(["T", t])
+            last = t
+        elif r < 0.8:
+            ops.append(gen_setop(rng, pool, pitches, cnt))
+        else:
+            ops.append(["A", gen_raw(rng, pool, pitches, cnt, style)])
+            cnt += 1  # (an upper bound when the note is rejected)
+    if rng.random() < 0.7:
+        ops.append(["T", rng.choice(tb)])
+    return {"k": "hist", "notes": notes, "controls": controls, "thr": rng.choice(tb), "ops": ops,
+            "ppq": base["ppq"], "mpq": base["mpq"], "obj": rng.random() < 0.4}
+
+
+def gen_perf(rng):
+    nparts = rng.choice([0, 1, 1, 2, 2, 3, 4])
+    parts = []
+    for i in range(nparts):
+        h = gen_hist(rng, "quick")
+        notes = []
+        for j in range(rng.choice([0, 1, 2, 3, 5])):
+            d = gen_raw(rng, [0.0, 0.5, 1.0, 1.5, 2.0, 3.0], [60, 60, 61, 72], j, rng.choice(["midi", "pitch"]))
+            d["id"] = "n%d" % j  # the id tells the position (rows of equal onset and pitch are ordered by it)
+            notes.append(d)
+        parts.append({"notes": notes, "controls": h["controls"][:4], "thr": h["thr"], "ppq": h["ppq"], "mpq": h["mpq"],
+                      "programs": [rng.choice([None, 0, 1, 5]) for _ in range(rng.choice([0, 0, 1, 2]))]})
+    return {"k": "perf", "parts": parts, "uid": rng.random() < 0.75}
+
+
+def gen_np(rng):
+    n = rng.choice([0, 1, 2, 3, 5, 8, 13, 40])
+    vals = [rng.randint(0, 6) / 2 for _ in range(n)] if rng.random() < 0.7 else [rng.randint(-64, 64) / G for _ in range(n)]
+    if rng.random() < 0.5:
+        return {"k": "ss", "a": sorted(vals), "x": rng.choice(vals + [rng.randint(-2, 8) / 2])}
+    return {"k": "asort", "a": vals}
 
 
 def gen_bad(rng):
@@ -158,6 +333,13 @@ def cases(rng, tier):
         else:
             # thorough: every case whose index is even walks all 128 thresholds, the others a sample
             yield gen_part(rng, ptier if (i % 2 == 0) else "quick")
+        # round 2: histories over documented note dictionaries, performances, numpy contract samples
+        if i % 2 == 0:
+            yield gen_hist(rng, ptier)
+        if i % 8 == 1:
+            yield gen_perf(rng)
+        if i % 10 == 3:
+            yield gen_np(rng)
 
 
 # ---------------------------------------------------------------------------------- reference (oracle)
@@ -191,12 +373,10 @@ def reference(notes, controls, thr):
 
 
 # ---------------------------------------------------------------------------------- implementation side
-def _note_dicts(notes, mpq, ppq):
-    from partitura.utils.music import seconds_to_midi_ticks
-
+def _note_dicts(notes, mpq, ppq, sid=False):
     out = []
     for i, n in enumerate(notes):
-        d = dict(id="n%d" % i, midi_pitch=n["p"], note_on=n["on"], note_off=n["off"], velocity=n["v"],
+        d = dict(id="x" if sid else "n%d" % i, midi_pitch=n["p"], note_on=n["on"], note_off=n["off"], velocity=n["v"],
                  track=n["tr"], channel=n["ch"])
         if n.get("ot"):
             d["note_on_tick"] = ref_tick(n["on"], mpq, ppq) + 3  # a given tick is used as it is
@@ -226,6 +406,64 @@ def _req_notes(notes, mpq, ppq):
     return " ".join(toks)
 
 
+def _raw_toks(d):
+    """a note dictionary as the driver reads it (absent key = `-`)"""
+    f = lambda k, g: W.opt(g, d.get(k))
+    return " ".join([f("id", W.s), f("pitch", W.i), f("midi_pitch", W.i), f("note_on", W.q), f("note_off", W.q),
+                     f("sound_off", W.q), f("velocity", W.i), f("track", W.i), f("channel", W.i),
+                     f("note_on_tick", W.i), f("note_off_tick", W.i)])
+
+
+def _req_raws(ds):
+    return " ".join([str(len(ds))] + [_raw_toks(d) for d in ds])
+
+
+def _view(pp):
+    """every note of the part as the model prints it"""
+    out = []
+    for n in pp.notes:
+        g = n.pnote_dict if hasattr(n, "pnote_dict") else n
+        out.append(W.f_tuple(str(g.get("id")), W.f_int(g["pitch"]), W.f_opt(W.f_int, g.get("midi_pitch")), W.f_rat(F(g["note_on"])),
+                             W.f_rat(F(g["note_off"])), W.f_rat(F(g["sound_off"])), W.f_int(g["velocity"]),
+                             W.f_int(g["track"]), W.f_int(g["channel"]),
+                             W.f_opt(W.f_int, g.get("note_on_tick")), W.f_opt(W.f_int, g.get("note_off_tick"))))
+    return "[" + ",".join(out) + "]"
+
+
+def _arow(r):
+    return W.f_tuple(str(r["id"]), W.f_tuple(W.f_rat(F(r["onset_sec"])), W.f_rat(F(r["duration_sec"])),
+                                             W.f_int(r["onset_tick"]), W.f_int(r["duration_tick"]), W.f_int(r["pitch"]),
+                                             W.f_int(r["velocity"]), W.f_int(r["track"]), W.f_int(r["channel"])))
+
+
+def _claimed(g):
+    """the note is one the property speaks about: a pitch, 0 <= onset <= release"""
+    try:
+        return g.get("pitch") is not None and 0 <= g["note_on"] <= g["note_off"]
+    except Exception:
+        return False
+
+
+def _wellformed_raw(d):
+    """True: the property demands that the note is accepted; False: the property (or the documented validators) let it
+    be rejected; None: the property demands that it is rejected"""
+    p = d.get("pitch", d.get("midi_pitch"))
+    if "note_on" not in d or "note_off" not in d or p is None:
+        return False
+    if "pitch" in d and "midi_pitch" in d and d["pitch"] != d["midi_pitch"]:
+        return False
+    bad = d["note_on"] < 0 or d["note_off"] < d["note_on"] or not (0 <= p <= 127) or not (0 <= d.get("velocity", 60) <= 127)
+    if bad:
+        return None
+    if "sound_off" in d and d["sound_off"] < d["note_off"]:
+        return False
+    if d.get("note_on_tick", 0) < 0:
+        return False
+    if "note_off_tick" in d and d.get("note_on_tick", -1) >= 0 and (d["note_off_tick"] < 0 or d["note_off_tick"] < d["note_on_tick"]):
+        return False
+    return True
+
+
 def _req_controls(controls):
     toks = [str(len(controls))]
     for c in controls:
@@ -250,8 +488,10 @@ def eval_part(d):
     wellformed = d["k"] == "part"
     thr0 = thrs[0]
 
+    sid = bool(d.get("sid"))
+
     def build(thr):
-        return P.PerformedPart(_note_dicts(notes, mpq, ppq), id="P0", controls=_control_dicts(controls),
+        return P.PerformedPart(_note_dicts(notes, mpq, ppq, sid), id="P0", controls=_control_dicts(controls),
                                sustain_pedal_threshold=thr, ppq=ppq, mpq=mpq)
 
     # ---- construction
@@ -354,6 +594,34 @@ def eval_part(d):
         except Exception as e:
             ev.impl.append("err")
             ev.oracle.append("from_note_array: rebuilding the part from its own note array raised %s: %s" % (type(e).__name__, e))
+        # ---- from_note_array of the array restricted to some columns; the rebuilt part's own note array
+        ff = d.get("ff")
+        if ff is not None:
+            cols = (["onset_sec", "duration_sec"] if ff[0] else []) + ["onset_tick", "duration_tick", "pitch"] + (
+                ["velocity"] if ff[1] else []) + (["id"] if ff[2] else []) + (["track"] if ff[3] else []) + (
+                ["channel"] if ff[4] else [])
+            ev.requests.append("fnav %d %d %d %s %s %s" % (thr0, mpq, ppq, _req_raws(_note_dicts(notes, mpq, ppq, sid)), rc,
+                                                          " ".join(W.b(x) for x in ff)))
+            try:
+                back = P.PerformedPart.from_note_array(na[cols])
+                bna = back.note_array()
+                ev.impl.append(W.f_tuple(_view(back), "[" + ",".join(_arow(r) for r in bna) + "]"))
+                got = [(int(b["pitch"]), int(b["velocity"]), F(b["note_on"]), F(b["sound_off"])) for b in back.notes]
+                want = [(n["p"], n["v"], F(n["on"]), s) for n, s in zip(notes, snd)]
+                if want != got:
+                    ev.oracle.append("from_note_array: columns %s: rebuilt (pitch, velocity, onset, sounding end) %s != %s" % (
+                        cols, got[:4], want[:4]))
+                for i, (r, w) in enumerate(zip(bna, want)):
+                    if (F(r["onset_sec"]), F(r["onset_sec"]) + F(r["duration_sec"])) != (w[2], w[3]):
+                        ev.oracle.append("rows: rebuilt part: note %d reports (%s, +%s), expected onset %s end %s" % (
+                            i, r["onset_sec"], r["duration_sec"], w[2], w[3]))
+                    if int(r["onset_tick"]) != ref_tick(w[2], back.mpq, back.ppq):
+                        ev.oracle.append("rows: rebuilt part: note %d onset_tick %d != ticks(onset_sec) %d under its ppq=%d mpq=%d" % (
+                            i, r["onset_tick"], ref_tick(w[2], back.mpq, back.ppq), back.ppq, back.mpq))
+            except Exception as e:
+                ev.impl.append("err")
+                if (ff[0] and ff[1]) or not notes:
+                    ev.oracle.append("from_note_array: columns %s: raised %s: %s" % (cols, type(e).__name__, e))
     except Exception as e:
         ev.oracle.append("total: note_array raised %s: %s" % (type(e).__name__, e))
 
@@ -432,13 +700,9 @@ def eval_tracks(d):
     if n_before != len(set(keys)) or n_after != len(set(keys)):
         ev.oracle.append("tracks: num_tracks %d / %d after renumbering, %d distinct (part, track) pairs" % (
             n_before, n_after, len(set(keys))))
-    # canonical relabelling by first occurrence (the set's iteration order is not fixed by the property)
-    canon = {}
-    for t in flat_new:
-        canon.setdefault(t, len(canon))
-    contiguous = sorted(set(flat_new)) == list(range(len(set(flat_new))))
-    fl = lambda l: W.f_list(W.f_int, [canon[t] for t in l])
-    ev.impl.append(W.f_tuple(W.f_int(n_before if contiguous else -1), W.f_list(W.f_int, part_n),
+    # the numbers themselves: the code enumerates the (part, track) pairs in sorted order (fix C06-3) and so does the model
+    fl = lambda l: W.f_list(W.f_int, l)
+    ev.impl.append(W.f_tuple(W.f_int(n_before), W.f_list(W.f_int, part_n),
                              W.f_list(lambda x: W.f_tuple(fl(x[0]), fl(x[1]), fl(x[2])), list(zip(new, newc, newp)))))
     ev.info = {"parts": len(parts), "keys": len(set(keys))}
     if len(set(keys)) >= 2:
@@ -446,9 +710,247 @@ def eval_tracks(d):
     return ev
 
 
+def _mk_notes(P, raws, obj):
+    return [P.PerformedNote(dict(r)) if obj else dict(r) for r in raws]
+
+
+def _errtok(e):
+    return {"KeyError": "K", "IndexError": "I"}.get(type(e).__name__, "V")
+
+
+def _contra(r):
+    return "pitch" in r and "midi_pitch" in r and r["pitch"] != r["midi_pitch"]
+
+
+def _judge_state(ev, pp, controls, thr, what, contra=()):
+    """the property on the current state of the part (independent of the model): reference pedal simulation over
+    the notes as they are now, pitch = the documented `pitch` entry"""
+    gs = [n.pnote_dict for n in pp.notes]
+    if not all(_claimed(g) for g in gs) or any(contra):
+        return False
+    cur = [{"p": g["pitch"], "on": g["note_on"], "off": g["note_off"]} for g in gs]
+    for i, (g, (kind, val)) in enumerate(zip(gs, reference(cur, controls, thr))):
+        s_, rel = F(g["sound_off"]), F(g["note_off"])
+        if s_ < rel:
+            ev.oracle.append("ge_release: %s thr=%d note %d sounds until %s < release %s" % (what, thr, i, s_, rel))
+        elif kind == "eq" and s_ != val:
+            ev.oracle.append("pedal: %s thr=%d note %d (of %d) sounds until %s, the pedal dictates %s (release %s)" % (
+                what, thr, i, len(gs), s_, val, rel))
+    return True
+
+
+def _judge_rows(ev, pp, na, what, contra=()):
+    if len(na) != len(pp.notes):
+        ev.oracle.append("rows: %s: %d rows for %d notes" % (what, len(na), len(pp.notes)))
+    for i, (r, n) in enumerate(zip(na, pp.notes)):
+        g = n.pnote_dict
+        if not _claimed(g) or (i < len(contra) and contra[i]):
+            continue
+        on = F(g["note_on"])
+        if F(r["onset_sec"]) != on or F(r["duration_sec"]) != F(g["sound_off"]) - on:
+            ev.oracle.append("rows: %s: note %d reports (%s, +%s) for onset %s sounding end %s" % (
+                what, i, r["onset_sec"], r["duration_sec"], on, g["sound_off"]))
+        if "note_on_tick" not in g and int(r["onset_tick"]) != ref_tick(on, pp.mpq, pp.ppq):
+            ev.oracle.append("rows: %s: note %d onset_tick %d != ticks(onset_sec) %d" % (
+                what, i, r["onset_tick"], ref_tick(on, pp.mpq, pp.ppq)))
+        if (int(r["pitch"]), int(r["velocity"])) != (g["pitch"], g["velocity"]):
+            ev.oracle.append("rows: %s: note %d pitch/velocity (%d, %d) for a note with (%s, %s)" % (
+                what, i, r["pitch"], r["velocity"], g["pitch"], g["velocity"]))
+
+
+def eval_hist(d):
+    import partitura.performance as P
+
+    ev = Eval()
+    raws, controls, thr0, ops, mpq, ppq = d["notes"], d["controls"], d["thr"], d["ops"], d["mpq"], d["ppq"]
+    toks = []
+    for o in ops:
+        if o[0] == "T":
+            toks.append("T %d" % o[1])
+        elif o[0] == "S":
+            k, v = o[2], o[3]
+            if k in ("note_on", "note_off", "sound_off"):
+                toks.append("S %d %s %s" % (o[1], k, W.q(v)))
+            elif k == "id":
+                toks.append("S %d id %s" % (o[1], W.s(v)))
+            elif k in INT_KEYS:
+                toks.append("S %d %s %d" % (o[1], k, v))
+            else:
+                toks.append("S %d other" % o[1])
+        else:
+            toks.append("A " + _raw_toks(o[1]))
+    ev.requests.append("hist %d %d %d %s %s %d %s" % (thr0, mpq, ppq, _req_raws(raws), _req_controls(controls), len(ops),
+                                                     " ".join(toks)))
+    wf = [_wellformed_raw(r) for r in raws]
+    try:
+        pp = P.PerformedPart(_mk_notes(P, raws, d.get("obj")), id="P0", controls=_control_dicts(controls),
+                             sustain_pedal_threshold=thr0, ppq=ppq, mpq=mpq)
+    except Exception as e:
+        ev.impl.append("err")
+        if all(w is True for w in wf):
+            ev.oracle.append("total: building the part raised %s: %s (thr=%d)" % (type(e).__name__, e, thr0))
+        return ev
+    if any(w is None for w in wf):
+        ev.oracle.append("validation: a note with onset<0, release<onset, pitch or velocity outside 0..127 was accepted")
+    contra = [_contra(r) for r in raws]  # contradictory pitch keys (until a pitch is assigned)
+    judged = 1 if _judge_state(ev, pp, controls, thr0, "construction", contra) else 0
+    v0 = _view(pp)
+    steps = []
+    appended = 0
+    for o in ops:
+        try:
+            if o[0] == "T":
+                pp.sustain_pedal_threshold = o[1]
+                judged += 1 if _judge_state(ev, pp, controls, o[1], "assignment after %d appended notes" % appended, contra) else 0
+            elif o[0] == "S":
+                pp.notes[o[1]][o[2]] = o[3]
+                if o[2] == "pitch":
+                    contra[o[1]] = False
+            else:
+                w = _wellformed_raw(o[1])
+                try:
+                    pp.notes.append(P.PerformedNote(dict(o[1])))
+                    appended += 1
+                    contra.append(_contra(o[1]))
+                    if w is None:
+                        ev.oracle.append("validation: a note with onset<0, release<onset, pitch or velocity outside 0..127 was accepted")
+                except Exception as e:
+                    if w is True:
+                        ev.oracle.append("total: PerformedNote raised %s: %s on a well-formed note" % (type(e).__name__, e))
+                    raise
+            tok = "ok"
+        except Exception as e:
+            tok = _errtok(e)
+            if o[0] == "T":
+                tok = "F"
+                ev.oracle.append("total: assigning the threshold raised %s: %s" % (type(e).__name__, e))
+        steps.append(W.f_tuple(tok, _view(pp)))
+    try:
+        # PerformedPart.note_array accepts and ignores any arguments
+        na = pp.note_array() if len(ops) % 2 else pp.note_array(True, include_pitch_spelling=True)
+        rows = "[" + ",".join(_arow(r) for r in na) + "]"
+        _judge_rows(ev, pp, na, "after the history", contra)
+    except Exception as e:
+        rows = "err"
+        ev.oracle.append("total: note_array raised %s: %s" % (type(e).__name__, e))
+    ev.impl.append(W.f_tuple(v0, "[" + ",".join(steps) + "]", rows))
+    nped = sum(1 for c in controls if c["n"] == 64)
+    ev.info = {"hist_ops": len(ops), "hist_judged_states": judged, "hist_appended": appended,
+               "hist_rejected_statements": sum(1 for x in steps if not x.startswith("(ok"))}
+    if pp.notes and nped:
+        ev.key = ev.requests[0]
+    return ev
+
+
+def eval_perf(d):
+    import partitura.performance as P
+
+    ev = Eval()
+    parts = d["parts"]
+    toks = [str(len(parts))]
+    for p in parts:
+        toks.append("%d %d %d %s %s %s" % (p["thr"], p["mpq"], p["ppq"], _req_raws(p["notes"]), _req_controls(p["controls"]),
+                                           W.lst(lambda x: W.opt(W.i, x), p["programs"])))
+    uid = bool(d.get("uid", True))
+    ev.requests.append("perf %s %s" % (W.b(uid), " ".join(toks)))
+    wf = all(_wellformed_raw(r) is True for p in parts for r in p["notes"])
+    pps = []
+    try:
+        for i, p in enumerate(parts):
+            progs = []
+            for t in p["programs"]:
+                c = dict(time=0.0, program=1, channel=1)
+                if t is not None:
+                    c["track"] = t
+                progs.append(c)
+            pps.append(P.PerformedPart(_mk_notes(P, p["notes"], i % 2 == 1), id="P%d" % i, controls=_control_dicts(p["controls"]),
+                                       programs=progs, sustain_pedal_threshold=p["thr"], ppq=p["ppq"], mpq=p["mpq"]))
+    except Exception as e:
+        ev.impl.append("err")
+        if wf:
+            ev.oracle.append("total: building the part raised %s: %s" % (type(e).__name__, e))
+        return ev
+    old = [[n["track"] for n in pp.notes] for pp in pps]
+    try:
+        perf = P.Performance(pps)
+        own = [pp.note_array() for pp in pps]
+        na = perf.note_array() if uid else perf.note_array(unique_id_per_part=False)
+        ntr = perf.num_tracks
+    except Exception as e:
+        ev.impl.append("err")
+        if parts:
+            ev.oracle.append("total: Performance / note_array raised %s: %s" % (type(e).__name__, e))
+        return ev
+    # rows of equal (onset, pitch) come in the order the unstable pitch sort leaves them: order those by part and position
+    def pos(r):
+        m = str(r["id"])
+        if len(parts) > 1 and uid:
+            return (int(m[1:3]), int(m[5:]))
+        # without the prefix the part is told by the (renumbered, hence part-specific) track
+        return (part_of_track.get(int(r["track"]), -1), int(m[1:]))
+
+    part_of_track = {int(n["track"]): i for i, pp in enumerate(pps) for n in pp.notes}
+
+    idok = all(str(r.get("id", "")).startswith("n") for p in parts for r in p["notes"])
+    rows = sorted(na, key=lambda r: (F(r["onset_sec"]), int(r["pitch"]), pos(r))) if idok else list(na)
+    if [(F(r["onset_sec"]), int(r["pitch"])) for r in rows] != [(F(r["onset_sec"]), int(r["pitch"])) for r in na]:
+        rows = list(na)  # not in (onset, pitch) order: let the comparison show it
+    ev.impl.append(W.f_tuple(W.f_int(ntr), "[" + ",".join(_arow(r) for r in rows) + "]"))
+    # oracle: the performance array holds exactly the rows of the parts (ids prefixed), each consistent with its note
+    want = []
+    for i, (pp, a) in enumerate(zip(pps, own)):
+        _judge_rows(ev, pp, a, "part %d" % i, [_contra(r) for r in parts[i]["notes"]])
+        for r in a:
+            t = tuple(r.tolist())
+            want.append(t[:-1] + (("P%02d_" % i if len(parts) > 1 and uid else "") + t[-1],))
+    if sorted(want) != sorted(tuple(r.tolist()) for r in na):
+        ev.oracle.append("rows: the performance note array is not the union of its parts' note arrays (%d rows, parts have %d)" % (
+            len(na), len(want)))
+    fwd, bwd = {}, {}
+    for i, (pp, o) in enumerate(zip(pps, old)):
+        for n, t0 in zip(pp.notes, o):
+            k, t = (i, t0), int(n["track"])
+            if fwd.setdefault(k, t) != t:
+                ev.oracle.append("tracks: (part, track) %s is sent to both %d and %d" % (k, fwd[k], t))
+            if bwd.setdefault(t, k) != k:
+                ev.oracle.append("tracks: new track %d is shared by %s and %s" % (t, bwd[t], k))
+    ev.info = {"perf_parts": len(parts), "perf_rows": len(na)}
+    if len(na) >= 2:
+        ev.key = ev.requests[0]
+    return ev
+
+
+def eval_np(d):
+    import numpy as np
+
+    ev = Eval()
+    a = np.array(d["a"], dtype=float)
+    if d["k"] == "ss":
+        ev.requests.append("ssorted %s %s" % (W.lst(W.q, d["a"]), W.q(d["x"])))
+        i = int(np.searchsorted(a, d["x"]))
+        ev.impl.append(W.f_tuple(W.f_int(i), W.f_int(i)))
+        if not (all(t < d["x"] for t in d["a"][:i]) and all(d["x"] <= t for t in d["a"][i:])):
+            ev.oracle.append("numpy: searchsorted(%s, %s) = %d breaks a[:i] < x <= a[i:]" % (d["a"], d["x"], i))
+    else:
+        ev.requests.append("asort %s" % W.lst(W.q, d["a"]))
+        idx = [int(i) for i in np.argsort(a, kind="stable")]
+        ev.impl.append(W.f_list(W.f_int, idx))
+        if idx != sorted(range(len(d["a"])), key=lambda i: (d["a"][i], i)):
+            ev.oracle.append("numpy: argsort(kind='stable') of %s = %s is not the stable order" % (d["a"], idx))
+    if len(d["a"]):
+        ev.key = ev.requests[0]
+    return ev
+
+
 def evaluate(d):
     if d["k"] == "tracks":
         return eval_tracks(d)
+    if d["k"] == "hist":
+        return eval_hist(d)
+    if d["k"] == "perf":
+        return eval_perf(d)
+    if d["k"] in ("ss", "asort"):
+        return eval_np(d)
     return eval_part(d)
 
 
@@ -466,6 +968,48 @@ def shrink(d):
                     q = dict(p)
                     q[f] = p[f][:j] + p[f][j + 1:]
                     yield dict(d, parts=d["parts"][:i] + [q] + d["parts"][i + 1:])
+        return
+    if d["k"] in ("ss", "asort"):
+        for i in range(len(d["a"])):
+            yield dict(d, a=d["a"][:i] + d["a"][i + 1:])
+        return
+    if d["k"] == "perf":
+        for i in range(len(d["parts"])):
+            yield dict(d, parts=d["parts"][:i] + d["parts"][i + 1:])
+        for i, p in enumerate(d["parts"]):
+            for f in ("notes", "controls", "programs"):
+                for j in range(len(p[f])):
+                    q = dict(p)
+                    q[f] = p[f][:j] + p[f][j + 1:]
+                    if f == "notes":  # ids carry the position
+                        q[f] = [dict(r, id="n%d" % k) if "id" in r else r for k, r in enumerate(q[f])]
+                    yield dict(d, parts=d["parts"][:i] + [q] + d["parts"][i + 1:])
+        return
+    if d["k"] == "hist":
+        ops = d["ops"]
+        for i in range(len(ops) - 1, -1, -1):
+            yield dict(d, ops=ops[:i] + ops[i + 1:])
+        for i in range(len(d["controls"])):
+            yield dict(d, controls=d["controls"][:i] + d["controls"][i + 1:])
+        for i in range(len(d["notes"])):
+            # indices of later statements shift
+            nops = []
+            for o in ops:
+                if o[0] == "S":
+                    if o[1] == i:
+                        continue
+                    nops.append(["S", o[1] - 1 if o[1] > i else o[1], o[2], o[3]])
+                else:
+                    nops.append(o)
+            yield dict(d, notes=d["notes"][:i] + d["notes"][i + 1:], ops=nops)
+        for i, r in enumerate(d["notes"]):
+            for k in ("sound_off", "note_on_tick", "note_off_tick", "track", "channel", "velocity"):
+                if k in r:
+                    q = dict(r)
+                    del q[k]
+                    yield dict(d, notes=d["notes"][:i] + [q] + d["notes"][i + 1:])
+        if d.get("obj"):
+            yield dict(d, obj=False)
         return
     if len(d["thrs"]) > 1:
         for i in range(len(d["thrs"])):
